@@ -57,6 +57,7 @@ type lWorld struct {
 	failures   []FailureEvent
 	starts     int
 	dlqNackAll bool // every DLQ plugin rejects what it is given (DLQ write failure)
+	dlqBlocks  bool // the DLQ plugin never answers
 	statusCh   chan pipeline.Status // every status write, in order (buffered)
 	// failStatusWrites: how many upcoming writes of failStatus are refused by
 	// the store (the in-memory status changes, as in the real pipeline service)
@@ -443,7 +444,7 @@ func (d lDispenser) DispenseDestination() (connectorPlugin.DestinationPlugin, er
 	defer d.w.mu.Unlock()
 	p := d.w.dests[d.id]
 	if p == nil {
-		p = &lDestPlugin{w: d.w, id: d.id, isDLQ: true, acked: map[int]bool{}, nacked: map[int]bool{}, nackAll: d.w.dlqNackAll}
+		p = &lDestPlugin{w: d.w, id: d.id, isDLQ: true, acked: map[int]bool{}, nacked: map[int]bool{}, nackAll: d.w.dlqNackAll, block: d.w.dlqBlocks}
 		d.w.dests[d.id] = p
 	}
 	return p, nil
